@@ -26,7 +26,8 @@ class C07(Prop):
     def gen(self, seed, idx, tier):
         R = Rng(seed, "C07")
         cfg = {"records_max": 10, "len_max": 5000, "isn_wrap": False, "seg_pct": 85,
-               "net": {"delay": 25, "lost_before": 10, "dup": 40, "dup_rto": 20, "dup_late": 10, "_D": 4}, "net_pct": 50,
+               "net": {"delay": 25, "lost_before": 10, "dup": 40, "dup_rto": 20, "dup_late": 10, "dup_merge": 25, "dup_half": 10,
+                       "_D": 4}, "net_pct": 50,
                "quic_pct": 35, "quic": {"migrate_pct": 25, "retry_pct": 30}}
         spec = gen.gen_mixed_world(R.fork("world"), cfg)
         spec["prop"] = "C07"
